@@ -532,6 +532,43 @@ func monC14(c *child.Ctx, replay json.RawMessage) {
 			}
 			syscall.Munmap(mem)
 		}
+		// a buffer that ends where accessible memory ends (a mapped file, a buffer handed
+		// over by C code): the page behind it is inaccessible, so a load that reaches
+		// past the last byte of the buffer faults even if the extra bits are masked away
+		if mem, err := syscall.Mmap(-1, 0, 8192, syscall.PROT_READ|syscall.PROT_WRITE, syscall.MAP_ANON|syscall.MAP_PRIVATE); err == nil {
+			copy(mem, r.Bytes(4096))
+			if syscall.Mprotect(mem[4096:], syscall.PROT_NONE) == nil {
+				for n := 1; n <= 40; n++ {
+					edge := mem[4096-n : 4096 : 4096]
+					for width := uint(1); width <= 64 && int(width) <= n*8; width++ {
+						for _, pos := range []uint{uint(n*8) - width, uint(n*8) - width - uint(r.Intn(8)), uint(r.Range(0, n*8-int(width)))} {
+							if int(pos) < 0 || int(pos+width) > n*8 {
+								continue
+							}
+							for _, signed := range []bool{false, true} {
+								if signed && width < 2 {
+									continue
+								}
+								k := bitsCase{Buf: hexs(edge), Pos: pos, Width: width, Signed: signed}
+								cj := c.BeginV(k) // a fault ends the process: the case is on record first
+								var want, got *big.Int
+								if signed {
+									want, got = ref.BitsBigSigned(edge, pos, width), big.NewInt(utils.GetBitsAsInt64(edge, pos, width))
+								} else {
+									want, got = ref.BitsBig(edge, pos, width), new(big.Int).SetUint64(utils.GetBitsAsUint64(edge, pos, width))
+								}
+								if got.Cmp(want) != 0 {
+									c.Violate("wrong-value", "extraction of "+mk2(pos, width, signed)+" from a buffer that ends at the end of accessible memory returned "+got.String()+", the addressed bits are "+want.String(), cj)
+								}
+								c.Count("extractions_at_the_end_of_accessible_memory", 1)
+							}
+						}
+					}
+				}
+				syscall.Mprotect(mem[4096:], syscall.PROT_READ|syscall.PROT_WRITE)
+			}
+			syscall.Munmap(mem)
+		}
 		c.EvalN(1)
 	}
 	// large buffers: fields next to every multiple of 64 KiB (and of 16 MiB in the
